@@ -26,6 +26,7 @@ From SJ Require Import Base.Bytes Base.Utf8 Base.FloatB Gen.Tables
 From SJ Require Proofs.NumInt Proofs.TypedInt.
 From SJ Require Import Proofs.ApNumber Proofs.ApNumberFloat Proofs.ValueInt Proofs.LexGlue Proofs.LexOracle Proofs.LexC07 Proofs.FloatDefault.
 From SJ Require Model.Sval Model.Ser Model.ValueSer Spec.Layout Proofs.SerToValueAp.
+From Coq Require Import Reals Lra.
 From Flocq Require Import Core BinarySingleNaN.
 Require Import Lia ZifyBool ZifyNat ZifyN.
 Open Scope N_scope.
@@ -326,5 +327,253 @@ Section ApLeaves.
       + intros d' s' Heq. exfalso.
         apply (TypedInt.C06_frac_exp_never_int f E it (nneg n) (nint n) c0 (tl0 ++ rst) (o + length w) p d (d', s') eq_refl H128 Hint); [|exact Heq].
         destruct Hc0 as [->|[->| ->]]; auto.
+  Qed.
+
+  (* ---- f64 (float_roundtrip: both routes round to nearest even) --------------------------------------------------------------- *)
+  Lemma lit_value_eq n : lit_value n = (lit_mantissa n, lit_exponent n).
+  Proof.
+    unfold lit_value, lit_mantissa, lit_exponent, frac_digits, lit_frac, exp_value, lit_exp_written, lit_exp_neg.
+    destruct (nexp n) as [[[e [c|]] ds]|]; try reflexivity.
+  Qed.
+
+  Lemma b64_of_Z_rne m : (0 <= m)%Z -> b64_of_Z m = rne_decimal m 0.
+  Proof.
+    intros Hm. unfold rne_decimal. destruct (m <=? 0)%Z eqn:H0.
+    - assert (m = 0%Z) by lia. subst m. reflexivity.
+    - pose proof (Z.log2_nonneg m) as Hl. change (400 <? 0)%Z with false. cbv iota.
+      assert (H1 : (0 <? - (400 + Z.log2 m))%Z = false) by lia. rewrite H1. change (0 <=? 0)%Z with true. cbv iota.
+      rewrite Z.pow_0_r, Z.mul_1_r. reflexivity.
+  Qed.
+
+  Lemma b64_of_Z_opp z : (0 < z <= Z.of_N u64_max)%Z -> b64_of_Z (- z) = b64_neg (b64_of_Z z).
+  Proof.
+    intros Hz. destruct (b64_of_Z_u64 z ltac:(lia)) as (HR & Hfin & Hsg).
+    assert (Hlt : (Rabs (RNE64 (F2R (Float radix2 (- z) 0))) < bpow radix2 1024)%R).
+    { rewrite F2R_e0. apply Rle_lt_trans with (bpow radix2 64); [|apply bpow_lt; lia].
+      apply RNE64_abs_le; [apply format_bpow64; lia|].
+      rewrite <- abs_IZR, bpow_IZR by lia. apply IZR_le. change (Z.of_N u64_max) with (2 ^ 64 - 1)%Z in Hz. lia. }
+    destruct (bn_correct (- z) 0 false Hlt) as (H1 & H2 & H3). rewrite F2R_e0 in H1, H3.
+    fold (b64_of_Z (- z)) in H1, H2, H3.
+    apply B2R_Bsign_inj.
+    - exact H2.
+    - unfold b64_neg. rewrite is_finite_Bopp. exact Hfin.
+    - unfold b64_neg. rewrite H1, B2R_Bopp, HR, opp_IZR. apply RNE64_opp.
+    - unfold b64_neg. rewrite H3, Bsign_Bopp, Hsg; [|destruct (b64_of_Z z); try reflexivity; discriminate Hfin].
+      destruct (Rcompare_spec (IZR (- z)) 0) as [Hc|Hc|Hc]; try reflexivity; exfalso.
+      + apply eq_IZR_R0 in Hc. lia.
+      + apply lt_IZR in Hc. lia.
+  Qed.
+
+  (* the i64 answer of parse_number for a negative literal *)
+  Lemma wrap_neg m0 : (0 <= m0 <= Z.of_N u64_max)%Z -> (0 <=? wrap_i64 (- wrap_i64 m0))%Z = false ->
+    wrap_i64 (- wrap_i64 m0) = (- m0)%Z /\ (0 < m0)%Z.
+  Proof.
+    unfold wrap_i64, u64_max. intros Hm Hw. apply Z.leb_gt in Hw.
+    destruct (Z_lt_ge_dec m0 9223372036854775808) as [Hlt|Hge].
+    - assert (H1 : ((m0 + 9223372036854775808) mod 18446744073709551616 = m0 + 9223372036854775808)%Z) by (apply Z.mod_small; lia).
+      rewrite H1 in *. replace (m0 + 9223372036854775808 - 9223372036854775808)%Z with m0 in * by lia.
+      destruct (Z.eq_dec m0 0) as [->|Hne]; [exfalso; revert Hw; vm_compute; discriminate|].
+      assert (H2 : ((- m0 + 9223372036854775808) mod 18446744073709551616 = - m0 + 9223372036854775808)%Z) by (apply Z.mod_small; lia).
+      rewrite H2 in *. lia.
+    - assert (H1 : ((m0 + 9223372036854775808) mod 18446744073709551616 = m0 - 9223372036854775808)%Z).
+      { symmetry. apply (Z.mod_unique_pos _ _ 1); lia. }
+      rewrite H1 in *.
+      replace (- (m0 - 9223372036854775808 - 9223372036854775808) + 9223372036854775808)%Z with (27670116110564327424 - m0)%Z in * by lia.
+      destruct (Z.eq_dec m0 9223372036854775808) as [->|Hne]; [split; [vm_compute; reflexivity|lia]|exfalso].
+      assert (H3 : ((27670116110564327424 - m0) mod 18446744073709551616 = 27670116110564327424 - m0)%Z) by (apply Z.mod_small; lia).
+      rewrite H3 in Hw. lia.
+  Qed.
+
+  (* the same build without the feature: the typed number requests do not look at it (C20_typed_same) *)
+  Definition cf0 : cfg := mkCfg (preserve_order cf) (float_roundtrip cf) false (limit_disabled cf).
+  Local Notation E0 := (mkEnv RSlice TEof cf0).
+
+  Lemma parse_integer_E0 positive s : parse_integer E positive s = parse_any_number E0 positive s.
+  Proof. rewrite (parse_integer_feature_indep RSlice TEof cf cf0 positive s eq_refl). reflexivity. Qed.
+
+  (* deserialize_number on the literal *)
+  Lemma deserialize_number_lit visit n rst o p d : num_ok n = true ->
+    deserialize_number E visit (mkSt (render_num n ++ rst) o p d) =
+    fix_position E (let^ (pn, s2) := parse_any_number E0 (negb (nneg n))
+                                       (mkSt (render_abs n ++ rst) (if nneg n then S o else o) (negb (nneg n)) d) in visit pn s2).
+  Proof.
+    intros Hok. unfold deserialize_number. rewrite render_num_split. destruct (nneg n); cbn [app negb].
+    - rewrite (TypedInt.parse_whitespace_hd E 45 _ o p d eq_refl). cbn [lift tbind]. change (45 =? 45) with true. cbv iota.
+      rewrite parse_integer_E0. reflexivity.
+    - destruct (ApNumber.render_abs_head n Hok) as (c & r & Hcr & Hc). rewrite Hcr. cbn [app].
+      assert (Hws : is_ws c = false) by (apply ws_byte_is_ws, digit_not_ws, Hc).
+      rewrite (TypedInt.parse_whitespace_hd E c _ o p d Hws). cbn [lift tbind].
+      assert (H45 : (c =? 45) = false) by (unfold is_digit in Hc; lia). rewrite H45, Hc.
+      rewrite parse_integer_E0. reflexivity.
+  Qed.
+
+  Theorem leaf_f64 n fuel fv s w rst : float_roundtrip cf = true -> num_ok n = true -> ws_ok w = true -> follow_ok rst ->
+    rest s = w ++ render_num n ++ rst -> (1 <= fuel)%nat -> (1 <= fv)%nat -> short_lit (render_num n) = true ->
+    okrel2 unborrow (de_value_owned fv cf fx TF64 (VNum (NLit (render_num n)))) (de_typed fuel E TF64 s) s rst.
+  Proof.
+    intros Hfr Hok Hw Hfol Hr Hfuel Hfv Hshort.
+    destruct fuel as [|f]; [lia|]. destruct fv as [|fv]; [lia|].
+    destruct s as [r0 o p d]. cbn [rest depth] in *. subst r0.
+    destruct (render_num_first n Hok) as (b & r & Hren & Hbws & _).
+    cbn [de_typed].
+    assert (Hskip : deserialize_number E visit_f64 (mkSt (w ++ render_num n ++ rst) o p d)
+                    = deserialize_number E visit_f64 (mkSt (render_num n ++ rst) (o + length w) p d)).
+    { rewrite Hren. cbn [app]. apply number_skip_ws; assumption. }
+    rewrite Hskip, (deserialize_number_lit visit_f64 n rst _ p d Hok). clear Hskip Hren Hbws b r.
+    rewrite (value_ap_f64_lit fv n Hok). cbv zeta.
+    set (o1 := if nneg n then S (o + length w) else (o + length w)%nat).
+    pose proof (lex_glue E0 n (negb (nneg n)) rst o1 (negb (nneg n)) d eq_refl Hfr eq_refl Hok (follow_fw n rst Hfol) (short_lit_abs n Hshort)) as G.
+    rewrite lit_value_eq in G. cbv zeta in G.
+    pose proof (lit_mantissa_nonneg n) as Hm0.
+    set (m0 := lit_mantissa n) in *. set (e0 := lit_exponent n) in *.
+    destruct (int_syntax n && (m0 <=? Z.of_N u64_max)%Z) eqn:Hcase.
+    - (* an integer literal within u64: the three-way integer answer, converted by `as f64` *)
+      apply andb_prop in Hcase as [Hsyn Hle]. apply Z.leb_le in Hle.
+      assert (He0 : e0 = 0%Z).
+      { unfold e0, lit_exponent, lit_exp_written, lit_frac. unfold int_syntax in Hsyn.
+        destruct (nfrac n); [discriminate Hsyn|]. destruct (nexp n); [discriminate Hsyn|]. reflexivity. }
+      rewrite He0, <- (b64_of_Z_rne m0 Hm0).
+      destruct (b64_of_Z_u64 m0 (conj Hm0 Hle)) as (_ & Hfin & _). rewrite (finite_not_inf _ Hfin).
+      rewrite G. cbn [lift tbind]. cbn [okrel2].
+      destruct (nneg n); cbn [negb].
+      + destruct (0 <=? wrap_i64 (- wrap_i64 m0))%Z eqn:Hwr; cbn [visit_f64 fix_position].
+        * eexists. eexists. split; [reflexivity|]. split; [reflexivity|]. split; reflexivity.
+        * destruct (wrap_neg m0 (conj Hm0 Hle) Hwr) as [-> Hpos]. rewrite (b64_of_Z_opp m0 (conj Hpos Hle)).
+          eexists. eexists. split; [reflexivity|]. split; [reflexivity|]. split; reflexivity.
+      + cbn [visit_f64 fix_position]. rewrite Z2N.id by exact Hm0.
+        eexists. eexists. split; [reflexivity|]. split; [reflexivity|]. split; reflexivity.
+    - (* the float path: lexical on a pair denoting the literal's value *)
+      destruct G as (m & e & Hm & Hsame & G).
+      assert (Heq : rne_decimal m e = rne_decimal m0 e0).
+      { apply rne_decimal_value; [exact Hm|exact Hm0|]. apply same_value_real. exact Hsame. }
+      unfold glue_float in G. cbv zeta in G. rewrite Heq in G.
+      destruct (b64_is_inf (rne_decimal m0 e0)); cbn [okrel2].
+      + destruct G as [i ->]. cbn [lift tbind fix_position]. intros d' s' Hd. discriminate Hd.
+      + rewrite G. cbn [lift tbind visit_f64 fix_position].
+        destruct (nneg n); cbn [negb]; eexists; eexists; (split; [reflexivity|]); (split; [reflexivity|]); split; reflexivity.
+  Qed.
+
+  (* ---- targets that are not numbers: type error on the Value route, the request refuses the first byte on the text route ------ *)
+  Definition non_number_scalar (t : ty) : bool :=
+    match t with TBool | TUnit | TUnitStruct | TStr | TChar => true | _ => false end.
+
+  Theorem leaf_reject t n fuel fv s w rst : non_number_scalar t = true -> num_ok n = true -> ws_ok w = true ->
+    rest s = w ++ render_num n ++ rst -> (1 <= fuel)%nat -> (1 <= fv)%nat ->
+    okrel2 unborrow (de_value_owned fv cf fx t (VNum (NLit (render_num n)))) (de_typed fuel E t s) s rst.
+  Proof.
+    intros Ht Hok Hw Hr Hfuel Hfv. destruct fuel as [|f]; [lia|]. destruct fv as [|fv]; [lia|].
+    destruct (render_num_first n Hok) as (b & r & Hren & Hbws & Hb).
+    rewrite Hren in Hr. revert Hr. lnorm. intros Hr.
+    assert (Hv : de_value_owned (S fv) cf fx t (VNum (NLit (render_num n))) = verr MInvalidType)
+      by (destruct t; try discriminate Ht; reflexivity).
+    rewrite Hv. apply okrel2_not_ok. unfold not_ok. apply (reject_not_ok cf t f s w b (r ++ rst) Hw Hbws Hr).
+    destruct t; try discriminate Ht; cbn [rejects]; destruct Hb as [->|Hd]; repeat split; try discriminate; unfold is_digit in Hd; lia.
+  Qed.
+
+  (* ---- IgnoredAny --------------------------------------------------------------------------------------------------------------- *)
+  Theorem leaf_ignored n fuel fv s w rst : num_ok n = true -> ws_ok w = true -> follow_ok rst ->
+    rest s = w ++ render_num n ++ rst -> (1 <= fuel)%nat -> (1 <= fv)%nat ->
+    okrel2 unborrow (de_value_owned fv cf fx TIgnored (VNum (NLit (render_num n)))) (de_typed fuel E TIgnored s) s rst.
+  Proof.
+    intros Hok Hw Hfol Hr Hfuel Hfv. destruct fuel as [|f]; [lia|]. destruct fv as [|fv]; [lia|].
+    cbn [de_value_owned de_typed okrel2]. destruct s as [r0 o0 p0 d0]. cbn [rest depth] in *. subst r0.
+    destruct (ignore_value_complete cf w (CNum n) rst o0 p0 d0 Hw Hok (follow_nfollow _ Hfol)) as [pk' Hi].
+    cbn [render] in Hi. rewrite Hi. cbn [lift tbind]. eexists. eexists. split; [reflexivity|]. split; [reflexivity|]. split; reflexivity.
+  Qed.
+
+  (* ---- the statement form shared with the container lemmas -------------------------------------------------------------------- *)
+  Definition num_agree (t : ty) : Prop := forall n fuel fv s w rst,
+    num_ok n = true -> ws_ok w = true -> follow_ok rst -> rest s = w ++ render_num n ++ rst ->
+    (ty_depth t <= fuel)%nat -> (ty_depth t <= fv)%nat -> claim_ap fx fv t (VNum (NLit (render_num n))) = true ->
+    okrel2 unborrow (de_value_owned fv cf fx t (VNum (NLit (render_num n)))) (de_typed fuel E t s) s rst.
+
+  Lemma num_agree_int (it : Ty.intty) : num_agree (TInt it).
+  Proof.
+    intros n fuel fv s w rst Hok Hw Hfol Hr Hfuel Hfv Hcl. cbn [ty_depth] in Hfuel, Hfv.
+    apply (leaf_int it n fuel fv s w rst); try assumption. destruct fv as [|fv]; [lia|]. cbn [claim_ap] in Hcl. destruct (f12b it (render_num n)); [discriminate Hcl|reflexivity].
+  Qed.
+
+  Lemma num_agree_f64 : float_roundtrip cf = true -> num_agree TF64.
+  Proof.
+    intros Hfr n fuel fv s w rst Hok Hw Hfol Hr Hfuel Hfv Hcl. cbn [ty_depth] in Hfuel, Hfv.
+    apply (leaf_f64 n fuel fv s w rst); try assumption. destruct fv as [|fv]; [lia|]. exact Hcl.
+  Qed.
+
+  Lemma num_agree_reject t : non_number_scalar t = true -> num_agree t.
+  Proof.
+    intros Ht n fuel fv s w rst Hok Hw Hfol Hr Hfuel Hfv _.
+    assert (Hd : ty_depth t = 1%nat) by (destruct t; try discriminate Ht; reflexivity). rewrite Hd in Hfuel, Hfv.
+    apply (leaf_reject t n fuel fv s w rst); assumption.
+  Qed.
+
+  Lemma num_agree_ignored : num_agree TIgnored.
+  Proof. intros n fuel fv s w rst Hok Hw Hfol Hr Hfuel Hfv _. cbn [ty_depth] in Hfuel, Hfv. apply (leaf_ignored n fuel fv s w rst); assumption. Qed.
+
+  Lemma num_agree_option t1 : num_agree t1 -> num_agree (TOption t1).
+  Proof.
+    intros IH n fuel fv s w rst Hok Hw Hfol Hr Hfuel Hfv Hcl. cbn [ty_depth] in Hfuel, Hfv.
+    destruct fuel as [|f]; [lia|]. destruct fv as [|fv]; [lia|].
+    destruct (render_num_first n Hok) as (b & r & Hren & Hbws & Hb).
+    pose proof Hr as Hr0. rewrite Hren in Hr. revert Hr. lnorm. intros Hr.
+    destruct (pws_head cf s w b (r ++ rst) Hw Hbws Hr) as (s1 & Hpw & Hr1 & Hd1).
+    cbn [de_typed]. rewrite Hpw. cbn [lift tbind].
+    assert (H110 : (b =? 110) = false) by (destruct Hb as [->|Hd]; [reflexivity|unfold is_digit in Hd; lia]). rewrite H110.
+    cbn [de_value_owned claim_ap] in Hcl |- *.
+    apply okrel2_map; [intros a b' Hab; cbn [unborrow]; rewrite Hab; reflexivity|].
+    apply (okrel2_depth unborrow _ _ s1 s rst Hd1).
+    apply (IH n f fv s1 [] rst); try assumption; try reflexivity; try lia.
+    rewrite Hr1, Hren. lnorm. reflexivity.
+  Qed.
+
+  Lemma num_agree_newtype t1 : num_agree t1 -> num_agree (TNewtype t1).
+  Proof.
+    intros IH n fuel fv s w rst Hok Hw Hfol Hr Hfuel Hfv Hcl. cbn [ty_depth] in Hfuel, Hfv.
+    destruct fuel as [|f]; [lia|]. destruct fv as [|fv]; [lia|].
+    cbn [de_typed de_value_owned claim_ap] in Hcl |- *.
+    apply okrel2_map; [intros a b' Hab; cbn [unborrow]; rewrite Hab; reflexivity|].
+    apply (IH n f fv s w rst); try assumption; lia.
+  Qed.
+
+  (* the scalar targets: bool, unit, unit struct, String, char, the ten integer types, f64, IgnoredAny, Option / newtype nests *)
+  Fixpoint scalar_ty (t : ty) : bool :=
+    match t with
+    | TBool | TUnit | TUnitStruct | TStr | TChar | TInt _ | TF64 | TIgnored => true
+    | TOption t1 | TNewtype t1 => scalar_ty t1
+    | _ => false
+    end.
+  Fixpoint scalar_has_f64 (t : ty) : bool :=
+    match t with TF64 => true | TOption t1 | TNewtype t1 => scalar_has_f64 t1 | _ => false end.
+
+  Theorem num_agree_scalar : forall t, scalar_ty t = true -> (scalar_has_f64 t = true -> float_roundtrip cf = true) -> num_agree t.
+  Proof.
+    induction t; intros Ht Hf; cbn [scalar_ty scalar_has_f64] in Ht, Hf; try discriminate Ht;
+      try (apply num_agree_reject; reflexivity).
+    - apply num_agree_ignored.
+    - apply num_agree_int.
+    - apply num_agree_f64, Hf. reflexivity.
+    - apply num_agree_option, IHt; assumption.
+    - apply num_agree_newtype, IHt; assumption.
+  Qed.
+
+  Lemma scalar_owned : forall t, scalar_ty t = true -> owned_ty t = true.
+  Proof. induction t; intros Ht; cbn [scalar_ty owned_ty] in *; try discriminate Ht; try reflexivity; apply IHt, Ht. Qed.
+
+  (* from the reader-state form to from_str on the literal alone *)
+  Lemma num_agree_text t n : num_agree t -> num_ok n = true ->
+    claim_ap fx (value_de_fuel t) t (VNum (NLit (render_num n))) = true ->
+    agree (from_value_owned cf fx t (VNum (NLit (render_num n)))) (from_input_typed E t (render_num n)).
+  Proof.
+    intros Hag Hok Hcl. unfold from_value_owned, from_input_typed.
+    assert (Hr0 : rest (init_st (render_num n)) = [] ++ render_num n ++ []) by (cbn [init_st rest app]; rewrite app_nil_r; reflexivity).
+    assert (Hfuel : (ty_depth t <= typed_fuel t (render_num n))%nat) by (unfold typed_fuel; lia).
+    assert (Hfv : (ty_depth t <= value_de_fuel t)%nat) by (unfold value_de_fuel; lia).
+    pose proof (Hag n (typed_fuel t (render_num n)) (value_de_fuel t) (init_st (render_num n)) [] [] Hok eq_refl I Hr0 Hfuel Hfv Hcl) as H.
+    unfold agree. destruct (de_value_owned (value_de_fuel t) cf fx t (VNum (NLit (render_num n)))) as [d| | |]; cbn [okrel2] in H; try contradiction.
+    - destruct H as (d' & s' & Hde & Hu & Hr & _). rewrite Hde. cbn [tbind].
+      destruct (de_end_nil cf s' Hr) as [s1 He]. rewrite He. cbn [lift tbind]. exists d'. auto.
+    - intros b. destruct (de_typed (typed_fuel t (render_num n)) E t (init_st (render_num n))) as [[d' s']| | | |] eqn:Hde;
+        cbn [tbind]; try discriminate.
+      pose proof (de_end_stuck cf s' (H d' s' eq_refl)) as Hst.
+      destruct (de_end E s') as [s1| | |] eqn:He; cbn [lift tbind]; try discriminate. exfalso. exact (Hst s1 eq_refl).
   Qed.
 End ApLeaves.
